@@ -64,6 +64,8 @@ def tasks(tier, seed):
     for order in (1, 2, 3, 4, 5):
         T.append(('opt', order))
     T.append(('adapt',))
+    T.append(('adapt_rk',))
+    T.append(('adapt_res',))
     hist = [(1, 2, 3, False, True), (2, 1, 4, False, True), (2, 2, 4, False, True), (2, 2, 4, True, True), (2, 1, 4, False, False),
             (3, 1, 4, False, True), (3, 2, 5, False, True), (3, 2, 4, True, True)] if quick else \
            [(1, 3, 4, False, True), (2, 2, 5, False, True), (2, 3, 5, True, True), (2, 2, 5, False, False), (3, 2, 6, False, True),
@@ -91,6 +93,10 @@ def run_task(rep, task):
         opt_case(rep, task[1])
     elif task[0] == 'adapt':
         adapt_case(rep)
+    elif task[0] == 'adapt_rk':
+        adapt_case(rep, rk=True)
+    elif task[0] == 'adapt_res':
+        adapt_residual_case(rep)
     elif task[0] == 'hist':
         hist_case(rep, *task[1:7], shrink=(task[7] if len(task) > 7 else False))
 
@@ -512,12 +518,13 @@ def opt_case(rep, order):
     rep.sample({'case': name, 'free_variables': 'beta, dt, e_tol, e_est', 'power_encoding': 'y > 0, y^order = e_tol/e_est'}, limit=2)
 
 
-def adapt_case(rep):
+def adapt_case(rep, rk=False):
     """real Adaptivity.get_new_step_size + determine_restart + limiters on symbolic estimates: a rejected step is retried with a smaller
     step unless a lower limit binds; an accepted step has e_est < e_tol"""
-    from pySDC.implementations.convergence_controller_classes.adaptivity import Adaptivity
+    from pySDC.implementations.convergence_controller_classes.adaptivity import Adaptivity, AdaptivityRK
     from pySDC.implementations.convergence_controller_classes.step_size_limiter import StepSizeLimiter, StepSizeSlopeLimiter
 
+    tag = 'adapt_rk' if rk else 'adapt'
     dt, e_est, e_tol, beta, dmin, smin = z3.Reals('dt e_est e_tol beta dmin smin')
     it, mx = z3.Ints('it mx')
     # beta < 1: with the safety factor 1 and e_est == e_tol exactly the proposal equals dt (strict decrease needs a safety factor below one)
@@ -527,12 +534,12 @@ def adapt_case(rep):
         def fn(c):
             for a in pre:
                 c.add(a)
-            c.add(it == order)  # iteration counter concrete (it is the order used by Adaptivity), budget symbolic
+            c.add(it == (1 if rk else order))  # iteration counter concrete (it is the order used by Adaptivity; RK: one iteration, order = update_order)
             _PowReal.ORDER[0] = order
             try:
-                A_ = _mk(Adaptivity, dict(beta=SymReal(beta), e_tol=_PowReal(e_tol), avoid_restarts=False))
+                A_ = _mk(AdaptivityRK if rk else Adaptivity, dict(beta=SymReal(beta), e_tol=_PowReal(e_tol), avoid_restarts=False, update_order=order))
                 L = SimpleNamespace(status=SimpleNamespace(dt_new=None, error_embedded_estimate=SymReal(e_est)), params=SimpleNamespace(dt=SymReal(dt)))
-                St = SimpleNamespace(levels=[L], status=SimpleNamespace(iter=order, restart=False, slot=0, force_continue=False),
+                St = SimpleNamespace(levels=[L], status=SimpleNamespace(iter=(1 if rk else order), restart=False, slot=0, force_continue=False),
                                      params=SimpleNamespace(maxiter=SymInt(mx)), time=0.0)
                 A_.get_new_step_size(None, St)
                 proposed = L.status.dt_new is not None
@@ -554,19 +561,82 @@ def adapt_case(rep):
         rep.paths += len(paths)
         for i, p in enumerate(paths):
             r = p.result
-            A = pre + [it == order] + list(p.assume) + list(p.pc)
+            A = pre + [it == (1 if rk else order)] + list(p.assume) + list(p.pc)
             g1 = r['restart'] == z3.And(it >= mx, e_est >= e_tol)
-            res, m = prove(g1, A, name=f'adapt/order{order}/path{i}:restart-iff-rejected')
-            rep.ob(f'adapt/order{order}/path{i}:restart-iff-rejected', res)
+            res, m = prove(g1, A, name=f'{tag}/order{order}/path{i}:restart-iff-rejected')
+            rep.ob(f'{tag}/order{order}/path{i}:restart-iff-rejected', res)
             if res == 'sat':
                 rep.unreproduced(f'adapt/order{order}/path{i}', 'restart rule model')
             if r['dt_new'] is not None:
                 g2 = z3.Implies(z3.And(it >= mx, e_est >= e_tol), z3.Or(r['dt_new'] < dt, r['dt_new'] == dmin, r['dt_new'] == dt * smin))
-                res, m = prove(g2, A, name=f'adapt/order{order}/path{i}:retry-smaller-unless-limit')
-                rep.ob(f'adapt/order{order}/path{i}:retry-smaller-unless-limit', res)
+                res, m = prove(g2, A, name=f'{tag}/order{order}/path{i}:retry-smaller-unless-limit')
+                rep.ob(f'{tag}/order{order}/path{i}:retry-smaller-unless-limit', res)
                 if res == 'sat':
                     rep.unreproduced(f'adapt/order{order}/path{i}', 'retry-smaller model')
     rep.sample({'case': 'adapt', 'free_variables': 'dt, e_est, e_tol, beta, dt_min, slope_min, iter, maxiter'}, limit=2)
+
+
+def adapt_residual_case(rep):
+    """real AdaptivityResidual.get_new_step_size + AdaptivityBase.determine_restart on symbolic residual / tolerances"""
+    from pySDC.implementations.convergence_controller_classes.adaptivity import AdaptivityResidual
+
+    dt, res_, e_tol, e_low, planned = z3.Reals('dt res e_tol e_tol_low planned')
+    hasp = z3.Bool('has_planned')
+    mx = z3.Int('mx')
+    pre = [dt > 0, res_ >= 0, e_tol > 0, e_low >= 0, e_low < e_tol, planned > 0, mx >= 1, mx <= 3]
+    for it_ in (1, 2):
+
+        def fn(c):
+            for a in pre:
+                c.add(a)
+            A_ = _mk(AdaptivityResidual, dict(e_tol=SymReal(e_tol), e_tol_low=SymReal(e_low), use_restol=False, allowed_modifications=['increase', 'decrease'], avoid_restarts=False))
+            hv = bool(SymBool(hasp))
+            L = SimpleNamespace(status=SimpleNamespace(dt_new=(SymReal(planned) if hv else None), residual=SymReal(res_)), params=SimpleNamespace(dt=SymReal(dt), restol=-1.0))
+            St = SimpleNamespace(levels=[L], status=SimpleNamespace(iter=it_, restart=False, slot=0, force_continue=False), params=SimpleNamespace(maxiter=SymInt(mx)), time=0.0)
+            A_.get_new_step_size(None, St)
+            A_.determine_restart(None, St)
+            return dict(restart=B(St.status.restart), dt_new=(R(L.status.dt_new) if L.status.dt_new is not None else None), hv=hv)
+
+        paths = explore(fn)
+        rep.paths += len(paths)
+        rep.decisions += sum(len(p.decisions) for p in paths)
+        for i, p in enumerate(paths):
+            r = p.result
+            A = pre + list(p.pc)
+            name = f'adapt_res/it{it_}/path{i}'
+            at_max = z3.IntVal(it_) == mx
+            pl = planned if r['hv'] else dt
+            dn = r['dt_new'] if r['dt_new'] is not None else (planned if r['hv'] else None)
+            goals = {'restart-iff-rejected': r['restart'] == z3.And(z3.IntVal(it_) >= mx, res_ >= e_tol)}
+            if r['dt_new'] is not None:
+                goals['step-size-rule'] = z3.And(z3.Implies(z3.And(at_max, res_ > e_tol), r['dt_new'] == z3.If(pl <= dt / 2, pl, dt / 2)),
+                                                 z3.Implies(z3.And(at_max, res_ < e_low), r['dt_new'] == z3.If(pl >= dt * 2, pl, dt * 2)))
+            # a rejected step (restart requested at the budget) is retried with a smaller step
+            goals['retry-smaller'] = z3.Implies(z3.And(at_max, res_ >= e_tol), z3.BoolVal(dn is not None) if dn is None else dn < dt)
+            for cl, g in goals.items():
+                res, m = prove(g, A, name=f'{name}:{cl}')
+                rep.ob(f'{name}:{cl}', res)
+                if res == 'sat':
+                    rep.replayed += 1
+                    vals = {str(v): float(model_value(m, v)) for v in (dt, res_, e_tol, e_low, planned)}
+                    mxv = int(model_value(m, mx))
+                    hvv = bool(model_value(m, hasp))
+                    A2 = _mk(AdaptivityResidual, dict(e_tol=vals['e_tol'], e_tol_low=vals['e_tol_low'], use_restol=False, allowed_modifications=['increase', 'decrease'], avoid_restarts=False))
+                    L2 = SimpleNamespace(status=SimpleNamespace(dt_new=(vals['planned'] if hvv else None), residual=vals['res']), params=SimpleNamespace(dt=vals['dt'], restol=-1.0))
+                    S2 = SimpleNamespace(levels=[L2], status=SimpleNamespace(iter=it_, restart=False, slot=0, force_continue=False), params=SimpleNamespace(maxiter=mxv), time=0.0)
+                    A2.get_new_step_size(None, S2)
+                    A2.determine_restart(None, S2)
+                    new = L2.status.dt_new if L2.status.dt_new is not None else vals['dt']
+                    rejected = it_ >= mxv and vals['res'] >= vals['e_tol']
+                    if cl == 'retry-smaller' and rejected and S2.status.restart and not (new < vals['dt']):
+                        rep.violation(f'{PID}/AdaptivityResidual/retry-not-smaller-at-equality', f'{name}: residual {vals["res"]} >= e_tol {vals["e_tol"]} at the budget: restart requested but the step size stays {new} (dt = {vals["dt"]})',
+                                      {'task': ['adapt_res'], 'vals': vals, 'maxiter': mxv, 'iter': it_, 'planned_set': hvv})
+                    elif cl != 'retry-smaller':
+                        rep.violation(f'{PID}/AdaptivityResidual/{cl}', f'{name}: {cl} refuted for {vals}', {'task': ['adapt_res'], 'vals': vals, 'maxiter': mxv})
+                    else:
+                        rep.unreproduced(f'{name}:{cl}', vals)
+        rep.ob(f'adapt_res/it{it_}:coverage', coverage_certificate(paths, pre, name=f'adapt_res/it{it_}:coverage'))
+    rep.sample({'case': 'adapt_res', 'free_variables': 'dt, residual, e_tol, e_tol_low, planned step size (or none), maxiter'}, limit=2)
 
 
 # ------------------------------------------------------------------------------------------------ (b) histories
